@@ -16,6 +16,7 @@ import PyTough.Proofs.IapwsMonoR1BoxB
 import PyTough.Proofs.IapwsMonoR1BoxC
 import PyTough.Proofs.IapwsMonoR1Slabs
 import PyTough.Proofs.IapwsMonoSatBounds
+import PyTough.Proofs.IapwsMonoR1Kappa
 import PyTough.Proofs.ThermoVisc
 
 namespace Props.C14
@@ -196,6 +197,45 @@ example : ∃ d1 u1 d2 u2, cowat (248 : ℝ) 5000000 = Ret.pair d1 u1 ∧ cowat 
   have e : satP (248 : ℝ) = satK 248 := rfl
   apply density_monotone_region1_partial 248 5000000 6000000 (by norm_num) (by norm_num) <;> rw [region_one, e] <;>
     refine ⟨by unfold tmin; norm_num, by norm_num, by norm_num, by norm_num, by linarith⟩
+
+/-- **Isothermal compressibility of liquid water is positive, in the conventional form** `κ_T = (1/ρ)(∂ρ/∂p)_T = −(1/v)(∂v/∂p)_T > 0`:
+    `rho1 t p' = p* / (R T γ_π(t, p'))` is the density `cowat` returns at every `p' ≤ 100 MPa` (first conjunct); at every state of the
+    fourteen boxes below it is positive and differentiable in `p` with `(1/ρ) ∂ρ/∂p > 0` (`γ_ππ ≤` the same termwise corner sum `< 0`).
+    Boxes: every pressure `0 … 100 MPa` for `0 ≤ t ≤ 230` degC; 230–240 from 4 MPa, 240–250 from 9.5 MPa, then the ten 10-degree slabs of
+    `density_monotone_r1_partial` (single boxes only — the chained pressure intervals between 230 and 250 degC are not repeated here).
+    At `p = 100 MPa` exactly the derivative is that of the formula, of which `cowat` realises the left half-neighbourhood.
+    `_partial`: same uncovered strip near saturation above 230 degC as stated; regions 2 and 3 not done in this form. -/
+theorem compressibility_pos_r1_partial (t p : ℝ) (hp2 : p ≤ 100000000)
+    (hbox : (0 ≤ t ∧ t ≤ 230 ∧ 0 ≤ p) ∨
+            (230 ≤ t ∧ t ≤ 240 ∧ 4000000 ≤ p) ∨ (240 ≤ t ∧ t ≤ 250 ∧ 9500000 ≤ p) ∨ (250 ≤ t ∧ t ≤ 260 ∧ 14500000 ≤ p) ∨
+            (260 ≤ t ∧ t ≤ 270 ∧ 19000000 ≤ p) ∨ (270 ≤ t ∧ t ≤ 280 ∧ 23500000 ≤ p) ∨ (280 ≤ t ∧ t ≤ 290 ∧ 28000000 ≤ p) ∨
+            (290 ≤ t ∧ t ≤ 300 ∧ 32000000 ≤ p) ∨ (300 ≤ t ∧ t ≤ 310 ∧ 36000000 ≤ p) ∨ (310 ≤ t ∧ t ≤ 320 ∧ 40000000 ≤ p) ∨
+            (320 ≤ t ∧ t ≤ 330 ∧ 43500000 ≤ p) ∨ (330 ≤ t ∧ t ≤ 340 ∧ 46500000 ≤ p) ∨ (340 ≤ t ∧ t ≤ 350 ∧ 50000000 ≤ p)) :
+    (∀ p' : ℝ, p' ≤ 100000000 → ∃ u, cowat t p' = Ret.pair (rho1 t p') u) ∧ 0 < rho1 t p ∧
+    ∃ ρ', HasDerivAt (fun p' => rho1 t p') ρ' p ∧ 0 < 1 / rho1 t p * ρ' := by
+  have key : 0 ≤ t ∧ t ≤ 350 ∧ (0 < rho1 t p ∧ ∃ ρ', HasDerivAt (fun p' => rho1 t p') ρ' p ∧ 0 < ρ') := by
+    rcases hbox with ⟨a, b, c⟩ | ⟨a, b, c⟩ | ⟨a, b, c⟩ | ⟨a, b, c⟩ | ⟨a, b, c⟩ | ⟨a, b, c⟩ | ⟨a, b, c⟩ | ⟨a, b, c⟩ | ⟨a, b, c⟩ |
+      ⟨a, b, c⟩ | ⟨a, b, c⟩ | ⟨a, b, c⟩ | ⟨a, b, c⟩
+    · refine ⟨a, by linarith, ?_⟩
+      by_cases h : t ≤ 225
+      · exact kappa_box0 t p a h c hp2
+      · exact kappa_box1 t p (by linarith) b c hp2
+    · exact ⟨by linarith, by linarith, kappa_box2 t p a b c hp2⟩
+    · exact ⟨by linarith, by linarith, kappa_box3 t p a b c hp2⟩
+    · exact ⟨by linarith, by linarith, kappa_box4 t p a b c hp2⟩
+    · exact ⟨by linarith, by linarith, kappa_box5 t p a b c hp2⟩
+    · exact ⟨by linarith, by linarith, kappa_box6 t p a b c hp2⟩
+    · exact ⟨by linarith, by linarith, kappa_box7 t p a b c hp2⟩
+    · exact ⟨by linarith, by linarith, kappa_box8 t p a b c hp2⟩
+    · exact ⟨by linarith, by linarith, kappa_box9 t p a b c hp2⟩
+    · exact ⟨by linarith, by linarith, kappa_box10 t p a b c hp2⟩
+    · exact ⟨by linarith, by linarith, kappa_box11 t p a b c hp2⟩
+    · exact ⟨by linarith, by linarith, kappa_box12 t p a b c hp2⟩
+    · exact ⟨by linarith, by linarith, kappa_box13 t p a b c hp2⟩
+  obtain ⟨ht0, ht, hpos, ρ', hd, hρ⟩ := key
+  exact ⟨fun p' hp' => cowat_rho1 t p' ht0 ht hp', hpos, ρ', hd, mul_pos (one_div_pos.mpr hpos) hρ⟩
+
+example : (20000000 : ℝ) ≤ 100000000 ∧ ((0 : ℝ) ≤ 150 ∧ (150 : ℝ) ≤ 230 ∧ (0 : ℝ) ≤ 20000000) := by norm_num
 
 /-! ### the region classifier names the region whose equation is valid -/
 
